@@ -206,6 +206,25 @@ def cases(rng, tier):
             continue
         yield "mp_wsgi_form %s %s" % (enc(ct), M.enc_chunks(ne))
         yield "mp_asgi_form %s %s" % (enc(ct), M.enc_chunks(M.rand_partition(rng, body)))
+    # long preambles (longer than the delimiter line plus the first header block), one cut inside the preamble and the
+    # rest in one piece / cut again behind the first delimiter, the first header block, the first part
+    for b, pre in ((b"bd", b"This is a multipart message in MIME format.\r\n" * 4),
+                   (b"----WebKitFormBoundary7MA4YWxk", b"x" * 300), (b"a-b", b"preamble line\n" * 12 + b"--a-"),
+                   (b"bd", b"p" * 90 + b"\r\n--b" + b"q" * 60)):
+        parts = [M.Part("first", b"value one"), M.Part("up", b"file\r\ncontent", "f.txt", [("Content-Type", "text/plain")]),
+                 M.Part("last", b"z")]
+        body = M.encode_form(b, parts, preamble=pre)
+        d1 = body.index(b"--" + b, len(pre) - 2 if pre.endswith(b"--a-") else 0)
+        marks = sorted({d1 + len(b) + 2, d1 + len(b) + 4, body.index(b"\r\n\r\n", d1) + 4, body.index(b"value one") + 9})
+        for cut1 in list(range(1, len(pre), 5)) + [len(pre) - 1, len(pre), len(pre) + 1, len(pre) + 2]:
+            if cut1 >= len(body):
+                continue
+            yield _ev(b, "utf8", [body[:cut1], body[cut1:]])
+            for cut2 in marks:
+                if cut2 > cut1:
+                    chunks = [body[:cut1], body[cut1:cut2], body[cut2:]]
+                    yield _ev(b, "utf8", chunks)
+                    yield _stream(rng.choice(["mp_stream", "mp_astream"]), b, "utf8", 324, None, chunks)
     # a text field of a few kB handed over byte by byte (thousands of Data events for one field), default limits
     for size in ((1500, 4000) if tier == "quick" else (1500, 4000, 12000)):
         b = b"bd"
